@@ -85,5 +85,10 @@ CHECKS = {
   "note": "Trusted: priority model in vlib/oracles/multimap.py (states only what the property states: nothing about penalties or which inconsistent/uninformative alignment is chosen). The 'counted once' clause is decided by C02 (recorded known finding for ties).",
   "technique": "runtime contract (reference-model post-condition) on the real resolver under permutation workloads + hooked resolution log in pipeline runs + differential runs",
  },
+ "C12": {
+  "text": "Per world a reference run (.gtf + --complete_genedb, one BAM) is compared with runs that supply the same annotation as .gtf.gz, with inferred genes/transcripts, as pre-built complete and inferred .db (built by the tree's own gtf2db), through the conversion cache (the cached branch must be reported, else inconclusive) and with --clean_start: whole trees must be byte-identical; and with the same records split into 2-5 BAMs (random, by chromosome, equal-coordinate twins in different files): read assignments, BED and ungrouped reference tables must be equal as multisets of records. The merge monitor counts cross-file coordinate ties actually merged. Sampled worlds/partitions.",
+  "note": "Trusted: byte/multiset comparison; outputs that legitimately depend on the number of files (file-name grouping, technical-replica rule for novel models) are not compared.",
+  "technique": "differential runtime monitoring (equivalent-input executions) + hooked BAM-merge log",
+ },
 }
 NOT_APPLICABLE = {}
